@@ -16,7 +16,8 @@ macro_rules! impl_datatype_partial_eq {
                     // Numeric types are promoted to f64 to compare
                     (a, b) if a.is_numeric() && b.is_numeric() => {
                         match (a.to_f64(), b.to_f64()) {
-                            (Some(x), Some(y)) => x == y,
+                            // NaN is equal to itself (and only to itself), so that `Eq` is an equivalence
+                            (Some(x), Some(y)) => x == y || (x.is_nan() && y.is_nan()),
                             _ => false,
                         }
                     }
@@ -47,7 +48,10 @@ macro_rules! impl_datatype_partial_ord {
                     // Numeric types are promoted to f64 and compared
                     (a, b) if a.is_numeric() && b.is_numeric() => {
                         match (a.to_f64(), b.to_f64()) {
-                            (Some(x), Some(y)) => x.partial_cmp(&y),
+                            // total order: NaN sorts after every other number and equals itself
+                            (Some(x), Some(y)) => x
+                                .partial_cmp(&y)
+                                .or_else(|| Some(x.is_nan().cmp(&y.is_nan()))),
                             _ => None,
                         }
                     }
